@@ -540,3 +540,39 @@ def x05(run):
     run.validate("Trace_JsonWalk", trace)
     return _growth_finish(run, assumptions=["the protobuf JSON reader / writer (github.com/OpenBazaar/jsonpb) and encoding/json are environment functions",
                                             "the walks are observed through the verif hooks VerifConvertHex / VerifConvertBase64 and through the public entry points"])
+
+
+@prop("X06", "Trace_LogMutex")
+def x06(run):
+    """logging_mutex.go (build tag mutexlog): the log of a real program is a behaviour of the lock specification."""
+    run.mc("LogMutex", "MC_LogMutex.cfg")
+    neg = run.mc("LogMutex", "MC_LogMutex_neg.cfg", expect_fail=True)
+    if neg["ok"]:
+        raise pipeline.Infra("negative control MC_LogMutex_neg did not fail: 'Locking' lines would prove exclusion")
+    binary = run.build(tags="verif mutexlog", pkg="./mutexlog", out_name="mlog")
+    trace, _ = run.exec("X06", binary=binary)
+    vout = trace + ".acc"
+    if os.path.exists(vout):
+        os.remove(vout)
+    r = run.tlc("Trace_LogMutex", "Trace_LogMutex.cfg", env={"TRACE": trace, "VOUT": vout})
+    if not r["ok"] and "Invariant LogSafe is violated" not in r["out"]:
+        raise pipeline.Infra("log validation failed:\n" + "\n".join(r["out"].splitlines()[-30:]))
+    run.val_states += r["distinct"]
+    run.val_trans += r["generated"]
+    acc = set()
+    if os.path.exists(vout):
+        for line in open(vout):
+            rec = json.loads(line)
+            if isinstance(rec, str):
+                rec = json.loads(rec)
+            acc.add(rec["h"])
+    for line in open(trace):
+        hrec = json.loads(line)
+        run.events += len(hrec["ev"])
+        run.histories += 1
+        if hrec["h"] not in acc:
+            run.verdicts.append(dict(trace=trace, h=hrec["h"], i=1, v=["log-is-not-a-behaviour-of-the-lock", "an assignment of the lines to goroutines", "none exists"],
+                                     event=hrec["ev"][0], history=hrec["ev"]))
+    pipeline.log("val Trace_LogMutex: %d histories, %d accepted, %d states" % (run.histories, len(acc), r["distinct"]))
+    return _growth_finish(run, assumptions=["bchlog writes whole lines in a total order (its backend serialises writers)",
+                                            "the lines carry no goroutine: TLC searches for the assignment and for the positions of the unlogged acquire / release steps"])
